@@ -94,14 +94,18 @@ PIPELINES.append(Pipeline('U1_Bzip2Decompressor_read', units=[U_ateof, U_bzread]
 
 import specs.c09_more as MORE
 PIPELINES += MORE.pipelines()
+PIPELINES += MORE.more_pipelines()
+PIPELINES += MORE.gz_buffer_pipelines()
 
 TRUSTED = ['libbz2 and zlib decode correctly (they are the reference)', 'return conventions of BZ2_bzRead/bzReadGetUnused/bzReadOpen/bzReadClose, feof, fgetc/ungetc (manuals)']
 ASSUMPTIONS = []
-NOT_DECIDED = ['that libbz2/zlib produce the reference bytes', 'the memory-buffer decompressors (recorded findings F12/F17/F18)', 'that Reader calls close() and propagates its exception', 'stdio read-ahead alignment', 'set_offset vs file size']
+NOT_DECIDED = ['that libbz2/zlib produce the reference bytes', 'that Reader calls close() and propagates its exception', 'stdio read-ahead alignment', 'set_offset vs file size']
 LEVEL_TEXT = ('Proof relative to assumed library contracts: Bzip2Decompressor::read (file descriptor input) is verified, for every behaviour the libbz2/stdio return conventions allow '
               '(any number of bytes per call, stream end with or without data, any amount of unused read-ahead, FILE at EOF or not), to declare the end of the input only when no compressed data '
               'is left - so every concatenated stream is read - to return the empty end-of-data marker only then, and to turn every library error into bzip2_error. Loop contract on the retry loop; '
               'termination is not claimed (progress depends on the library). GzipDecompressor::read hands on exactly what gzread delivers and turns its error into gzip_error; '
-              'GzipDecompressor::close and Bzip2Decompressor::close report a failing gzclose_r (how zlib signals a truncated file) / BZ2_bzReadClose as an exception and close exactly once.')
+              'GzipDecompressor::close and Bzip2Decompressor::close report a failing gzclose_r (how zlib signals a truncated file) / BZ2_bzReadClose as an exception and close exactly once. The memory-buffer decompressors '
+              '(Bzip2BufferDecompressor::read, GzipBufferDecompressor::read): every library error becomes an exception and the empty end-of-data marker is returned only after the library reported the end of a stream - a truncated buffer '
+              'is never accepted as complete; that they stop at the first stream/member of a concatenated buffer is reported as known findings F12/F17.')
 LEVEL_NOTE = ('Trusted: CBMC, extraction rules, and above all the stub contracts of libbz2 and stdio (manual conventions) and the ghost accounting of not-yet-decoded compressed bytes. Not decided: that the libraries '
-              'decode correctly, that the Reader calls close() and propagates its exception, the memory-buffer decompressors (multi-stream and truncation findings F12/F17/F18 are recorded, not under contract), read offset vs. file size.')
+              'decode correctly, that the Reader calls close() and propagates its exception. Known findings F12/F17 (multi-stream memory buffers) are reported, not repaired. Not decided either: close() of the memory-buffer decompressors, read offset vs. file size.')
